@@ -187,6 +187,7 @@ def run(prog: Program, rep: Report, tier: str):
                        line=fa.line(rn), clause="C12.5")
     rep.floor("generator-based draws in rank-aware samplers", n_draws, 4)
     padding_rule(prog, rep)
+    rank_queries_not_memoised(prog, rep, clause="C12.2")
     # RandomSampler (not rank-aware): the repeat path keeps the explicit generator and repeats before cutting
     C = prog.cls("RandomSampler")
     fi = C.methods.get("__iter__")
@@ -257,8 +258,14 @@ def rank_split_rules(prog: Program, rep: Report, C: ClassInfo, fi: FuncInfo, fa:
                 t = fa.sym.term(nd.ast, n)
                 if t[0] == "eq" and contains(t, ("self", "num_samples")):
                     trunc.add(n)
-        last_y = [y for y in ys if fa.cfg.reachable(sn, y) or y == sn]
-        ok = bool(trunc) and all(y in trunc or sn in trunc or fa.cfg.must_pass(trunc, src=sn, dst=y) for y in last_y) and bool(last_y)
+        # every rank split (a fast path may have its own) must be followed by the cut on every path to a yield it feeds
+        ok = bool(trunc)
+        any_y = False
+        for sn_, _x in splits:
+            ys_ = [y for y in ys if fa.cfg.reachable(sn_, y) or y == sn_]
+            any_y = any_y or bool(ys_)
+            ok = ok and all(y in trunc or sn_ in trunc or (y != sn_ and fa.cfg.must_pass(trunc, src=sn_, dst=y)) for y in ys_)
+        ok = ok and any_y
         rep.decide(ok, "G9.rank-split", fi, "truncate", "per-rank list cut to len(self) before it is yielded",
                    "the per-rank list is yielded without being cut to len(self): ranks whose slice is one longer "
                    "emit an extra index", line=fa.line(sn), clause=clause)
@@ -273,6 +280,30 @@ def rank_split_rules(prog: Program, rep: Report, C: ClassInfo, fi: FuncInfo, fa:
                    clause=clause)
 
     return splits
+
+
+def rank_queries_not_memoised(prog: Program, rep: Report, clause: str):
+    rep.rule("G8.rank-query-live", "the helpers that answer 'which rank am I / how many ranks are there' (kappadata/utils/distributed.py) "
+             "ask the process group every time: none of them is wrapped in a caching decorator (lru_cache / cache / cached_property) "
+             "and none stores its answer in a module-level variable - an answer computed before the process group exists would "
+             "otherwise stick, and every sampler built later would believe it is rank 0 of 1 (all ranks yield the whole draw)")
+    m = prog.raw.module("kappadata/utils/distributed.py", required=False)
+    if m is None:
+        return
+    n = 0
+    for st in m.tree.body:
+        if not isinstance(st, ast.FunctionDef):
+            continue
+        n += 1
+        decos = [ast.unparse(d) for d in st.decorator_list]
+        cached = [d for d in decos if any(k in d for k in ("lru_cache", "functools.cache", "cached_property")) or d in ("cache",)]
+        globs = [x for x in ast.walk(st) if isinstance(x, ast.Global)]
+        o = rep.decide(not cached and not globs, "G8.rank-query-live", m, f"function:{st.name}", "answers from the live process group",
+                       (f"{st.name} is memoised ({', '.join(cached)})" if cached else f"{st.name} stores into a module-level variable") +
+                       ": a value computed before torch.distributed is initialised is returned for the rest of the process",
+                       line=st.lineno, clause=clause)
+        o.func = st.name
+    rep.floor("rank / world-size helper functions", n, 3)
 
 
 def padding_rule(prog: Program, rep: Report):
